@@ -3,8 +3,8 @@
 use super::*;
 use crate::cache::vk_support as sup;
 
-/// key hash used by all CacheD-level harnesses: key 100 + i  ->  hash i  (so that the hash, the id and the key differ)
-pub(crate) fn vk_hash(key: &u64) -> KeyHash { key.wrapping_sub(100) }
+/// key hash used by all CacheD-level harnesses: key 101 + i  ->  hash 5 + i  (so that hash, id (1 + i) and key all differ)
+pub(crate) fn vk_hash(key: &u64) -> KeyHash { key.wrapping_sub(96) }
 pub(crate) static mut CONST_HASH: Option<KeyHash> = None;
 fn hash_fn(key: &u64) -> KeyHash { unsafe { match CONST_HASH { Some(h) => h, None => vk_hash(key) } } }
 fn weight_fn(k: &u64, v: &u64, ttl: bool) -> Weight { Calculation::perform(k, v, ttl) }
